@@ -25,11 +25,9 @@ verif = os.path.dirname(os.path.dirname(os.path.abspath(__file__)))
 man = json.load(open(os.path.join(verif, "MANIFEST.json")))
 claimed = [c["property_id"] for c in man["checks"]]
 seeds = sorted(os.path.dirname(p) for p in glob.glob(os.path.join(root, "**", "patch.diff"), recursive=True))
-results = []
-for sd in seeds:
+def one(sd):
+    lines = []
     rel = os.path.relpath(sd, root)
-    if only and only not in rel:
-        continue
     meta = {}
     if os.path.exists(os.path.join(sd, "meta.json")):
         meta = json.load(open(os.path.join(sd, "meta.json")))
@@ -41,9 +39,7 @@ for sd in seeds:
         if ap.returncode != 0:
             ap = subprocess.run(["patch", "-p1", "-d", scratch, "-i", os.path.join(sd, "patch.diff"), "--fuzz=3", "-s"], capture_output=True, text=True)
         if ap.returncode != 0:
-            print(f"{rel}: PATCH DOES NOT APPLY: {ap.stderr.strip()[:200]} {ap.stdout.strip()[:200]}")
-            results.append((rel, target, "noapply", []))
-            continue
+            return (rel, target, "noapply", []), [f"{rel}: PATCH DOES NOT APPLY: {ap.stderr.strip()[:200]} {ap.stdout.strip()[:200]}"]
         env = dict(os.environ, VERIF_REPO=scratch, VERIF_EVIDENCE_DIR=os.path.join(scratch, "_evidence"))
         hit = {}
         for p in (props or claimed):
@@ -55,16 +51,26 @@ for sd in seeds:
             elif r.returncode == 2:
                 hit[p] = ["ANALYSIS-ERROR " + " ".join(l for l in r.stdout.splitlines() if "ANALYSIS-ERROR" in l)[:300]]
         status = "DETECTED" if target in hit else ("detected-by-other" if hit else "MISSED")
-        print(f"{rel}: target={target} {status} {sorted(hit)}")
+        lines.append(f"{rel}: target={target} {status} {sorted(hit)}")
         shown = set()
         for p, d in hit.items():
             for l in d[:3]:
                 if l not in shown:
                     shown.add(l)
-                    print(f"      {p}: {l[:230]}")
-        results.append((rel, target, status, sorted(hit)))
+                    lines.append(f"      {p}: {l[:230]}")
+        return (rel, target, status, sorted(hit)), lines
     finally:
         shutil.rmtree(scratch, ignore_errors=True)
+
+
+from concurrent.futures import ThreadPoolExecutor
+
+results = []
+todo = [sd for sd in seeds if not only or only in os.path.relpath(sd, root)]
+with ThreadPoolExecutor(max_workers=int(os.environ.get("EVAL_JOBS", "12"))) as ex:
+    for res, lines in ex.map(one, todo):
+        results.append(res)
+        print("\n".join(lines), flush=True)
 n = len(results)
 det = sum(1 for r in results if r[2] == "DETECTED")
 oth = sum(1 for r in results if r[2] == "detected-by-other")
